@@ -59,6 +59,12 @@ type ScriptedReader struct {
 	// io.ErrUnexpectedEOF, which a consumer must not mistake for its own end-of-stream signal).
 	FailOnce bool
 	FailErr  error
+	// Hesitate (uniform mode): every call that would hand out data is preceded by that many calls that
+	// return (0, nil) - "nothing happened", which the io.Reader contract allows and a consumer must
+	// not take for the end of the stream. Empties (chooser mode): before a data call the chooser may
+	// insert one such empty read ("empty-read": no [default] / yes), at most two in a row.
+	Hesitate int
+	Empties  bool
 
 	// MaxCalls bounds the number of Read calls (0 = 4*len(Data)+64); exceeding it panics, so that an
 	// implementation that keeps reading after EOF or an error is reported instead of hanging.
@@ -73,12 +79,14 @@ type ScriptedReader struct {
 	FailedWithData bool // the failing call handed out at least one byte
 	EOFSeen        bool // io.EOF has been returned
 	EOFWithBytes   bool // io.EOF was returned together with data
+	EmptyReads     int  // calls answered (0, nil)
+	emptyRun       int
 }
 
 // Reset rewinds the reader and clears the observations; the policy fields are kept.
 func (r *ScriptedReader) Reset(data []byte) {
 	r.Data = data
-	r.Pos, r.Calls, r.ShortReads = 0, 0, 0
+	r.Pos, r.Calls, r.ShortReads, r.EmptyReads, r.emptyRun = 0, 0, 0, 0, 0
 	r.Failed, r.PosBeforeFail, r.FailedWithData, r.EOFSeen, r.EOFWithBytes = false, 0, false, false, false
 }
 
@@ -123,7 +131,7 @@ func (r *ScriptedReader) Read(p []byte) (int, error) {
 		return 0, nil
 	}
 	r.Calls++
-	if max := r.MaxCalls; r.Calls > max && (max > 0 || r.Calls > 4*len(r.Data)+64) {
+	if max := r.MaxCalls; r.Calls > max && (max > 0 || r.Calls > (4*len(r.Data)+64)*(1+r.Hesitate)) {
 		panic("scripted reader: runaway read loop (the reader keeps being called after end of stream or an error)")
 	}
 	if r.Failed && !r.FailOnce {
@@ -136,6 +144,20 @@ func (r *ScriptedReader) Read(p []byte) (int, error) {
 	fit := avail
 	if len(p) < fit {
 		fit = len(p)
+	}
+	// nothing happened
+	if fit > 0 && !r.Failed {
+		if r.Ch == nil && r.emptyRun < r.Hesitate && r.Calls != r.FailCall {
+			r.emptyRun++
+			r.EmptyReads++
+			return 0, nil
+		}
+		if r.Ch != nil && r.Empties && r.emptyRun < 2 && r.Ch.Choose("empty-read", 2) == 1 {
+			r.emptyRun++
+			r.EmptyReads++
+			return 0, nil
+		}
+		r.emptyRun = 0
 	}
 	// how much
 	n := fit
